@@ -167,10 +167,12 @@ package retrypolicy
 //@   modifies nothing
 
 // Environment (assumed here; proved for the real *execution in package failsafe)
+// (frames as wide as the implementation's, failsafe.(*execution): last result / error, attempt counters, start time)
 //@ extfunc github.com/failsafe-go/failsafe-go/policy.ExecutionInternal.RecordResult
-//@   modifies nothing
+//@   havoc
 //@ extfunc github.com/failsafe-go/failsafe-go/policy.ExecutionInternal.InitializeRetry
-//@   modifies nothing
+//@   havoc
+//@   modifies alloftype(atomic.Uint32)
 //@ extfunc github.com/failsafe-go/failsafe-go.Execution.Canceled
 //@   modifies nothing
 
@@ -227,7 +229,7 @@ package retrypolicy
 //@   ensures [C02.same_execution] forall i int :: 1 <= i && i <= n ==> arg(innerFn, i, 0) == exec
 //@   ensures [C16.retry.events] (e.onRetry != nil ==> ncalls(e.onRetry) == n - 1) && (e.onRetryScheduled != nil ==> n - 1 <= ncalls(e.onRetryScheduled) && ncalls(e.onRetryScheduled) <= n) && ncalls(e.onAbort) <= 1 && ncalls(e.onRetriesExceeded) <= 1
 //@   havoc
-//@   modifies e.failedAttempts, e.retriesExceeded, e.lastDelay, calls(innerFn), calls(e.onAbort), calls(e.onRetriesExceeded), calls(e.onFailure), calls(e.onSuccess), calls(e.onRetry), calls(e.onRetryScheduled), calls(e.DelayFunc), calls(exec.CopyWithResult), methodcalls, calls(exec.IsCanceledWithResult), calls(exec.RecordResult), calls(exec.InitializeRetry), calls(exec.Canceled)
+//@   modifies e.failedAttempts, e.retriesExceeded, e.lastDelay, alloftype(atomic.Uint32), calls(innerFn), calls(e.onAbort), calls(e.onRetriesExceeded), calls(e.onFailure), calls(e.onSuccess), calls(e.onRetry), calls(e.onRetryScheduled), calls(e.DelayFunc), calls(exec.CopyWithResult), methodcalls, calls(exec.IsCanceledWithResult), calls(exec.RecordResult), calls(exec.InitializeRetry), calls(exec.Canceled)
 
 // C14 (confinement): hedge attempts call their inner function from several goroutines at once. The retry closure keeps
 // failedAttempts / retriesExceeded / lastDelay on its executor without a lock and is therefore not declared 'reentrant'.
